@@ -43,6 +43,9 @@ RmRet  == Is("ret", "remove") /\ (Ev.ok \/ Ev.mayfail)
           /\ rmDone' = (IF Ev.ok THEN rmDone \cup {Ev.id} ELSE rmDone) /\ UNCHANGED <<addCalled, addDone, rmCalled, must, never, issued, seen>>
 Other == /\ l <= Len(Trace) /\ Ev.op \in {"flush", "writeto", "rotate", "compact"} /\ l' = l + 1
          /\ (Ev.ev = "ret" => Ev.ok)
+         \* a hybrid index serialised while others write to it: the reloaded image shows the same documents through its three
+         \* modalities and every one of them can be removed (the image is one state of the index, not a mixture of several)
+         /\ ((Ev.ev = "ret" /\ Ev.img) => SetOf(Ev.iv) = SetOf(Ev.it) /\ SetOf(Ev.it) = SetOf(Ev.im) /\ Ev.rmfail = <<>>)
          /\ UNCHANGED <<addCalled, addDone, rmCalled, rmDone, must, never, issued, seen>>
 SearchCall == /\ Is("call", "search")
               /\ must'  = [c \in DOMAIN must \cup {Ev.c} |-> IF c = Ev.c THEN addDone \ rmCalled ELSE must[c]]
@@ -57,11 +60,17 @@ SearchRet == /\ Is("ret", "search") /\ Ev.ok
              /\ never' = [c \in DOMAIN never \ {Ev.c} |-> never[c]]
              /\ seen' = seen \cup SetOf(Ev.res)
              /\ UNCHANGED <<addCalled, addDone, rmCalled, rmDone, issued>>
+\* a multi-query search restricted to the caller's own documents (added by it, removed by nobody else): exactly those come back
+\* (approximate kinds: nothing else comes back); the id filters are pooled objects shared by concurrent searches
+RSearch == /\ l <= Len(Trace) /\ Ev.op = "rsearch" /\ l' = l + 1
+           /\ (Ev.ev = "ret" => /\ Ev.ok /\ SetOf(Ev.res) \subseteq SetOf(Ev.filt) /\ Cardinality(SetOf(Ev.res)) = Len(Ev.res)
+                                /\ (Ev.exact => SetOf(Ev.res) = SetOf(Ev.filt)))
+           /\ UNCHANGED <<addCalled, addDone, rmCalled, rmDone, must, never, issued, seen>>
 \* end of a round: no goroutine is stuck (watchdog), no panic
 End == /\ l <= Len(Trace) /\ Ev.ev = "end" /\ l' = l + 1 /\ ~Ev.deadlock /\ ~Ev.panic
        /\ seen \subseteq addCalled            \* nothing that was never added was ever returned (ids generated by Add are known only at its return)
        /\ UNCHANGED <<addCalled, addDone, rmCalled, rmDone, must, never, issued, seen>>
-Next == Reset \/ AddCall \/ AddRet \/ AutoCall \/ AutoRet \/ SideCall \/ SideRet \/ RmCall \/ RmRet \/ Other \/ SearchCall \/ SearchRet \/ End
+Next == RSearch \/ Reset \/ AddCall \/ AddRet \/ AutoCall \/ AutoRet \/ SideCall \/ SideRet \/ RmCall \/ RmRet \/ Other \/ SearchCall \/ SearchRet \/ End
 Spec == Init /\ [][Next]_vars
 Accepted == LET d == TLCGet("stats").diameter IN PrintT("CONSUMED " \o ToString(d - 1))
 =============================================================================
